@@ -480,7 +480,7 @@ check_leftover_ifs = Fn(
     for_to_while=[1],
     loops={1: Loop(invariant=[
         C("clean_so_far", "report.msgs() == old(report).msgs() && report.errors() == old(report).errors() && report.parents() == old(report).parents()"),
-        C("no_if_so_far", "verif_next_1 <= ast.nodes@.len() && forall|j: int| 0 <= j < verif_next_1 ==> !(#[trigger] ast.nodes@[j] is DirectiveIf)"),
+        C("no_if_so_far", "verif_vec_1@ == ast.nodes@ && verif_next_1 <= ast.nodes@.len() && forall|j: int| 0 <= j < verif_next_1 ==> !(#[trigger] ast.nodes@[j] is DirectiveIf)"),
     ], decreases="ast.nodes@.len() - verif_next_1")},
 )
 
